@@ -54,7 +54,7 @@ def run(tier, seed):
                 if v.get('k') == 'Bool' and v['v']:
                     setters.append((fn, n_['l']))
     ini = prog.fn(GEN + '::initialize')
-    F = cppflow.Flow(ini)
+    F = cppflow.Flow(ini, helpers=cppflow.private_helpers(prog, ini, exclude=('_init_', '_reset_')))
     call = [x for x in F.nodes(kind='call') if x.stmt[1].endswith('::_init_')]
     st = [x for x in F.nodes(kind='assign') if cppflow.mentions(x.stmt[1], '_initialized_')]
     ok = len(setters) == 1 and setters[0][0]['name'] == 'initialize' and len(call) == 1 and len(st) == 1 and \
